@@ -390,7 +390,18 @@ def r6_skip_pure(ctx, cfg):
         state = [f for f in sl.fields if f and f[0].startswith("upvar:self")]
         reads_self = any(f for f in state if len(f) > 1) or any(re.search(r"RwLock|Mutex|DashMap|HashMap|HashSet|Atomic", c.name) for c in sl.calls)
         # any lock / map access anywhere in the body is history-dependent too
-        hist = [c for c in b.calls if re.search(r"RwLock|Mutex|DashMap|HashMap|HashSet|BTreeMap|Atomic\w*::.*load", c.name) and not c.expn]
+        hist = [c for c in b.calls if re.search(r"RwLock|Mutex|DashMap|DashSet|HashMap|HashSet|BTreeMap|BTreeSet|Atomic\w*::.*load", c.name) and not c.expn]
+        # control dependence: a branch whose condition derives from a field of the hooks object decides from remembered state just as
+        # well as a returned value does (`if self.verified.contains(key) { return true }`)
+        for bb_ in sorted(b.live_blocks()):
+            t_ = b.blocks[bb_]["t"]
+            if t_["k"] != "Switch" or t_.get("x") or op_local(t_["d"]) is None:
+                continue
+            sl_ = Slice(b, [op_local(t_["d"])], transparent=True)
+            st_ = [f for f in sl_.fields if f and f[0].startswith("upvar:self") and len(f) > 1]
+            if st_:
+                state = state + st_
+                reads_self = True
         ctx.check(not reads_self and not hist, rule, [b.id, "pure-of-size"], "depends on the size argument and constants only",
                   "%s consults per-instance state (%s): a verdict remembered from an earlier validation lets later same-size corruption of the "
                   "backing store through unverified" % (b.id, [c.name.split("::")[-1] for c in hist][:3] or [".".join(f) for f in state][:3]), b.loc(),
